@@ -595,3 +595,107 @@ def m12_a4(ctx):
 
 
 RULES.append(m12_a4)
+
+
+def _ids_pred_ok(crate, body, r):
+    """r is the leader test of an element: uf[x].elem.id == x (either order), possibly through a small helper"""
+    r = strip_role(r)
+    for _ in range(3):
+        if isinstance(r, tuple) and r[0] == "call" and r[1] in ("clone", "deref", "borrow") and r[3]:
+            r = strip_role(r[3][0])
+    if isinstance(r, tuple) and r[0] == "call" and r[1] not in ("eq",) and r[3]:
+        # a crate-local predicate helper (`is_leader(&uf, x)`, `self.is_alive(x)`): its own answer must be the leader test of its parameters
+        for hb in crate.by_name.get(r[1], []):
+            if hb.kind != "Closure" and (hb.file or "").startswith("src/") and hb.local_ty(0) == "bool":
+                return _ids_pred_ok(crate, hb, hb.role_of_local(0))
+        return False
+    a = b = None
+    if isinstance(r, tuple) and r[0] == "call" and r[1] == "eq" and len(r[3]) == 2:
+        a, b = r[3]
+    elif isinstance(r, tuple) and r[0] == "bin" and str(r[1]) == "Eq":
+        a, b = r[2], r[3]
+    if a is None:
+        return False
+    sa, sb = role_str(strip_role(a), 40), role_str(strip_role(b), 40)
+    if ".elem.id" in sb and ".elem.id" not in sa:
+        sa, sb = sb, sa
+    if not (sa.endswith(".elem.id") and ".elem" not in sb):
+        return False
+    # the entry examined is the entry OF the element compared: uf[x.0] vs x, uf[i] vs Id(i), or (i, entry) of one enumeration
+    core = sb
+    m_ = re.match(r"^(?:types::Id::)?Id\{(.*)\}$", core)
+    if m_:
+        core = m_.group(1)
+    for suf in ("", ".0"):
+        if core + suf and ("index(" in sa or "[" in sa) and (", %s%s)" % (core, suf) in sa or ", %s)" % core in sa):
+            return True
+    if "[*]" in sa:
+        # slice indexing `uf[i.0]` is a place projection: read the index local off the body
+        from .c07 import _indexed_places
+        def nb_(x):
+            return re.sub(r"\b(deref|borrow|as_slice|as_ref)\(", "", x).replace(")", "")
+        idxs = {role_str(strip_role(i_), 40) for (_, base_, i_) in _indexed_places(body) if nb_(role_str(strip_role(base_), 40)) + "[*].elem.id" == nb_(sa)}
+        if idxs and idxs <= {core, core + ".0"}:
+            return True
+    m1 = re.match(r"^(next\(.*\)(?: as Some)?(?:\.0)?)\.1\.elem\.id$", sa)
+    if m1 and core == m1.group(1) + ".0" and "enumerate(" in sa:
+        return True
+    return False
+
+
+@rule("M11", doc="EGraph::ids() — the set every matcher, the extractor and the progress measure range over — is exactly the set of leaders: every index 0..len(unionfind), kept iff its own union-find entry points to itself; nothing else is dropped, nothing is added")
+def m11(ctx):
+    crate = ctx.lib()
+    bs = [b for b in crate.by_name.get("ids", []) if b.kind != "Closure" and "egraph::EGraph" in (b.impl_self or "") and b.argc == 1]
+    if len(bs) != 1:
+        raise mir.AnchorMissing("EGraph::ids")
+    b = mir.inline_view(crate, bs[0])
+    w = where_of(b)
+    ret = strip_role(b.role_of_local(0))
+    chain = []
+    r = ret
+    while isinstance(r, tuple) and r[0] == "call" and r[3]:
+        chain.append(r)
+        r = strip_role(r[3][0])
+    names = [x[1] for x in chain]
+    if "collect" in names:
+        # adaptor form: (0..len).map(Id).filter(leader).collect()
+        src = r
+        allowed = {"collect", "filter", "map", "into_iter", "iter", "enumerate", "filter_map", "borrow", "deref"}
+        extra = sorted(set(names) - allowed)
+        flt = [x for x in chain if x[1] in ("filter", "filter_map")]
+        ok_src = isinstance(src, tuple) and src[0] == "agg" and str(src[1]).endswith("Range") and len(src[2]) == 2 \
+            and strip_role(src[2][0])[0] == "const" and str(strip_role(src[2][0])[1]).split("_")[0] == "0" \
+            and role_str(strip_role(src[2][1])).startswith("len(") and role_mentions_field(src[2][1], "unionfind")
+        ok_src = ok_src or (role_mentions_field(src, "unionfind") and "enumerate" in names)
+        ctx.check(ok_src and not extra, "ids-range-over-whole-unionfind", "ids() ranges over every index of the union-find vector (chain: %s)" % names[::-1],
+                  "ids() ranges over %s through %s: every id 0..len(unionfind) must be examined" % (role_str(src)[:80], names[::-1]), w)
+        okp = False
+        if len(flt) == 1 and len(flt[0][3]) == 2:
+            cl = C._closure_of_role(crate, flt[0][3][1])
+            if hasattr(cl, "calls"):
+                cv = mir.inline_view(crate, cl)
+                okp = _ids_pred_ok(crate, cv, cv.role_of_local(0))
+        ctx.check(okp, "ids-keeps-exactly-the-leaders", "the only filter of ids() is the leader test of the element itself",
+                  "ids() filters with something other than `unionfind[x].elem.id == x` for the element x itself (or has %d filters): a live class that is dropped is invisible to every matcher, to the extractor and to the progress measure" % len(flt), w)
+        return
+    # loop form: for x in 0..len { if leader(x) { out.push(x) } }
+    loops = C.iterator_loops(b)
+    pushes = [c for c in b.calls if c.callee and c.callee.name == "push" and not b.blocks[c.bb]["cleanup"]]
+    if len(loops) != 1 or len(pushes) != 1:
+        raise mir.AnchorMissing("the shape of EGraph::ids (adaptor chain ending in collect, or one loop with one push)", "loops=%d pushes=%d" % (len(loops), len(pushes)))
+    l = loops[0]
+    it = strip_role(l[1])
+    while isinstance(it, tuple) and it[0] == "call" and it[1] in ("into_iter", "iter", "map", "enumerate") and it[3]:
+        it = strip_role(it[3][0])
+    ok_src = isinstance(it, tuple) and it[0] == "agg" and str(it[1]).endswith("Range") and str(strip_role(it[2][0])[1]).split("_")[0] == "0" and role_mentions_field(it[2][1], "unionfind") and role_str(strip_role(it[2][1])).startswith("len(")
+    ok_src = ok_src or (role_mentions_field(it, "unionfind") and role_mentions_call(l[1], "enumerate"))
+    bad_ad = sorted({x[1] for x in role_walk(l[1]) if isinstance(x, tuple) and x[0] == "call" and x[1] in ("filter", "skip", "take", "rev", "step_by", "take_while", "skip_while")})
+    ctx.check(ok_src and not bad_ad and C.loop_exhaustive(b, l), "ids-range-over-whole-unionfind", "ids() examines every index of the union-find vector", "the loop of ids() ranges over %s%s or can stop early" % (role_str(l[1])[:80], (" through " + ",".join(bad_ad)) if bad_ad else ""), w)
+    conds = [(k, cond) for e, k, t, cond in C.skip_conditions(b, pushes[0].bb)]
+    okp = len(conds) == 1 and conds[0][0] in ("true", "eq") and _ids_pred_ok(crate, b, conds[0][1][1] if conds[0][0] == "true" else ("call", "eq", "", [conds[0][1][1], conds[0][1][2]], -1))
+    ctx.check(okp, "ids-keeps-exactly-the-leaders", "an index is pushed iff its own union-find entry points to itself",
+              "ids() pushes an element under %s: the only condition must be `unionfind[x].elem.id == x` for the element x itself" % [" ".join(role_str(z)[:60] for z in c_[1:]) for _, c_ in conds], w)
+
+
+RULES.append(m11)
